@@ -75,6 +75,8 @@ func (o columnPaginator[ResourceType, OptionsType]) BuildCursor(ret []ResourceTy
 
 	order := *o.query.Order
 
+	var previous, next *ColumnPaginatedQuery[OptionsType]
+
 	var v ResourceType
 	fields := findPaginationFieldPath(v, paginationColumn)
 
@@ -83,6 +85,10 @@ func (o columnPaginator[ResourceType, OptionsType]) BuildCursor(ret []ResourceTy
 	)
 	for _, t := range ret {
 		paginationID := findPaginationField(t, fields...)
+		if paginationID == nil {
+			// a row without a value in the sort column (e.g. reverted_at of a transaction that was not reverted)
+			return nil, NewErrInvalidQuery("cannot paginate on '%s': a row has no value for it", paginationColumn)
+		}
 		if o.query.Bottom == nil {
 			o.query.Bottom = paginationID
 		}
@@ -98,8 +104,6 @@ func (o columnPaginator[ResourceType, OptionsType]) BuildCursor(ret []ResourceTy
 			ret[i], ret[len(ret)-i-1] = ret[len(ret)-i-1], ret[i]
 		}
 	}
-
-	var previous, next *ColumnPaginatedQuery[OptionsType]
 
 	if o.query.Reverse {
 		cp := o.query
@@ -213,8 +217,14 @@ func findPaginationField(v any, fields ...reflect.StructField) *big.Int {
 		case time.Time:
 			return big.NewInt(rawPaginationID.UTC().UnixMicro())
 		case *time.Time:
+			if rawPaginationID == nil {
+				return nil
+			}
 			return big.NewInt(rawPaginationID.UTC().UnixMicro())
 		case *libtime.Time:
+			if rawPaginationID == nil {
+				return nil
+			}
 			return big.NewInt(rawPaginationID.UTC().UnixMicro())
 		case libtime.Time:
 			return big.NewInt(rawPaginationID.UTC().UnixMicro())
@@ -231,14 +241,23 @@ func findPaginationField(v any, fields ...reflect.StructField) *big.Int {
 		case int:
 			return big.NewInt(int64(rawPaginationID))
 		case *int64:
+			if rawPaginationID == nil {
+				return nil
+			}
 			return big.NewInt(*rawPaginationID)
 		case *int:
+			if rawPaginationID == nil {
+				return nil
+			}
 			return big.NewInt(int64(*rawPaginationID))
 		case uint64:
 			v := new(big.Int)
 			v.SetUint64(rawPaginationID)
 			return v
 		case *uint64:
+			if rawPaginationID == nil {
+				return nil
+			}
 			v := new(big.Int)
 			v.SetUint64(*rawPaginationID)
 			return v
